@@ -817,3 +817,151 @@ func c05TypedChain() {
 
 func VerifC05TypedChain() { c05TypedChain() }
 func VerifC06TypedChain() { c05Mode = 6; c05TypedChain() }
+
+// Three independent lanes START -> n_i -> m_i -> END run side by side in one graph (Pregel or DAG); the head of
+// every lane is a plain node, a node that asks for interrupt-and-rerun on its first attempt, or a nested graph with an
+// interrupt point. Whatever the mix, every interrupting head is reported, the plain heads that finished in the same
+// step are not lost (their successors run after the resume), nothing is executed twice except the re-run nodes.
+func c05Lanes(dag bool) {
+	ctx := context.Background()
+	vcfg("fifo", 1)
+	kinds := []int{vchoose("lane", 3), vchoose("lane", 3), vchoose("lane", 3)} // 0 plain, 1 rerun, 2 nested graph
+	if kinds[0] == 0 && kinds[1] == 0 && kinds[2] == 0 {
+		return
+	}
+	heads := []string{"n0", "n1", "n2"}
+	tails := []string{"m0", "m1", "m2"}
+	in0 := map[string]any{"in": vsymInt("x")}
+	build := func(log *vLog, interrupts bool, store CheckPointStore, attempts map[string]int) (Runnable[map[string]any, map[string]any], error) {
+		g := NewGraph[map[string]any, map[string]any]()
+		for i := range heads {
+			h, t := heads[i], tails[i]
+			switch kinds[i] {
+			case 0:
+				_ = g.AddLambdaNode(h, c05Node(h, log, nil))
+			case 1:
+				_ = g.AddLambdaNode(h, InvokableLambda(func(ctx context.Context, in map[string]any) (map[string]any, error) {
+					vMu.Lock()
+					attempts[h]++
+					first := attempts[h] == 1
+					vMu.Unlock()
+					if interrupts && first {
+						return nil, InterruptAndRerun
+					}
+					// the framework does not keep the input of a node that asked for a rerun (it is rebuilt by a state
+					// pre-handler where needed, see the rerun family): this node works from the run's input directly
+					x := vFoldDeep(in0)
+					log.add(h, x)
+					return map[string]any{h: vsymUF("f_"+h, x)}, nil
+				}))
+			case 2:
+				inner := NewGraph[map[string]any, map[string]any]()
+				_ = inner.AddLambdaNode("a", c05Node(h+"a", log, nil))
+				_ = inner.AddLambdaNode("b", c05Node(h+"b", log, nil))
+				_ = inner.AddEdge(START, "a")
+				_ = inner.AddEdge("a", "b")
+				_ = inner.AddEdge("b", END)
+				var o []GraphAddNodeOpt
+				if interrupts {
+					o = append(o, WithGraphCompileOptions(WithInterruptBeforeNodes([]string{"b"})))
+				}
+				_ = g.AddGraphNode(h, inner, o...)
+			}
+			_ = g.AddLambdaNode(t, c05Node(t, log, nil))
+			_ = g.AddEdge(START, h)
+			_ = g.AddEdge(h, t)
+			_ = g.AddEdge(t, END)
+		}
+		var opts []GraphCompileOption
+		if dag {
+			opts = append(opts, WithNodeTriggerMode(AllPredecessor))
+		}
+		if interrupts {
+			opts = append(opts, WithCheckPointStore(store))
+		}
+		return g.Compile(ctx, opts...)
+	}
+	logI, logU := &vLog{}, &vLog{}
+	store := &vStore{m: map[string][]byte{}}
+	attempts := map[string]int{}
+	ri, err := build(logI, true, store, attempts)
+	vassert(err == nil, "lanes graph compiles")
+	ru, err := build(logU, false, nil, map[string]int{})
+	vassert(err == nil, "twin compiles")
+	in := in0
+	wantOut, wantErr := ru.Invoke(ctx, in)
+	vassert(wantErr == nil, "uninterrupted run succeeds")
+	var out map[string]any
+	finished := false
+	for call := 0; call < 5 && !finished; call++ {
+		var rerr error
+		if vchoose("paradigm", 2) == 1 {
+			sr, e := ri.Stream(ctx, in, WithCheckPointID("cp"))
+			rerr = e
+			if e == nil {
+				out, rerr = vDrainMap(sr)
+			}
+		} else {
+			out, rerr = ri.Invoke(ctx, in, WithCheckPointID("cp"))
+		}
+		if rerr == nil {
+			finished = true
+			break
+		}
+		info, ok := ExtractInterruptInfo(rerr)
+		a5(ok, "lanes: the (resumed) run does not fail with a non-interrupt error")
+		a6(ok, "lanes: only interrupt errors")
+		if !ok {
+			return
+		}
+		if call == 0 {
+			for i, h := range heads {
+				switch kinds[i] {
+				case 1:
+					a6(c05Contains(info.RerunNodes, h), "lanes: every node that asked for a rerun in this step is reported in RerunNodes: "+h)
+				case 2:
+					si := info.SubGraphs[h]
+					a6(si != nil && c05Contains(si.BeforeNodes, "b"), "lanes: every nested graph that interrupted in this step is reported with its own info: "+h)
+				default:
+					a6(!c05Contains(info.RerunNodes, h) && info.SubGraphs[h] == nil, "lanes: a plain node is not reported")
+				}
+			}
+			a6(store.sets == 1, "lanes: the checkpoint is written when the interrupt is returned")
+			for i, h := range heads {
+				if kinds[i] == 0 {
+					a6(len(logI.of(h)) == 1, "lanes: every node started in the step has finished when the interrupt is returned: "+h)
+				}
+			}
+		}
+	}
+	a5(finished, "lanes: the run completes after resuming")
+	a5(c02DeepEq(out, wantOut), "lanes: same output as the uninterrupted run")
+	var all []string
+	for i, h := range heads {
+		if kinds[i] == 2 {
+			all = append(all, h+"a", h+"b")
+		} else {
+			all = append(all, h)
+		}
+		all = append(all, tails[i])
+	}
+	for _, n := range all {
+		a, b := logI.of(n), logU.of(n)
+		a5(len(a) == len(b), "lanes: node "+n+" completes as often as in the uninterrupted run: nothing lost, nothing re-executed")
+		for i := range a {
+			if i < len(b) {
+				a5(a[i] == b[i], "lanes: node "+n+" sees the same input as in the uninterrupted run")
+			}
+		}
+	}
+	for i, h := range heads {
+		if kinds[i] == 1 {
+			a5(attempts[h] == 2, "lanes: a node that asked for the interrupt is attempted exactly once more")
+		}
+	}
+}
+
+func VerifC05LanesPregel() { c05Lanes(false) }
+func VerifC05LanesDAG()    { c05Lanes(true) }
+func VerifC06LanesPregel() { c05Mode = 6; c05Lanes(false) }
+func VerifC06LanesDAG()    { c05Mode = 6; c05Lanes(true) }
